@@ -42,6 +42,7 @@ func TestVfC04Restart(t *testing.T) {
 		{"put(cas,a)", "put(cas,z)"},
 		{"put(cas,z)", "put(ac,k,v1)", "put(cas,a)"},
 		{"put(cas,a)", "put(raw,k,w1)", "put(cas,b)"},
+		{"put(raw,k,empty)", "put(cas,a)"},
 	}
 	cell := 0
 	for _, before := range []string{"zstd", "uncompressed"} {
